@@ -508,20 +508,8 @@ def rule_forwarding(ctx):
     # opt_or itself
     oo = model.func("apischema.utils.opt_or")
     ctx.check("is not None" in norm(oo.node) or "is None" in norm(oo.node), rule, oo.qualname, oo.node.body[0], "opt_or must default on `is None`, not on truthiness (False is a value)", oo, oo.node, detail="is None test")
-    # tri-state options must not be defaulted with `or`
-    for fi in model.functions.values():
-        if not fi.module.name.startswith(("apischema.deserialization", "apischema.serialization", "apischema.json_schema", "apischema.graphql.schema")):
-            continue
-        args = fi.node.args
-        opt_bool = {a.arg for a in (*args.args, *args.kwonlyargs) if a.annotation is not None and norm(a.annotation) in ("Optional[bool]", "bool | None")}
-        if not opt_bool:
-            continue
-        for n in walk_no_nested(fi.node):
-            if isinstance(n, ast.BoolOp) and isinstance(n.op, ast.Or):
-                for v in n.values[:-1]:
-                    if isinstance(v, ast.Name) and v.id in opt_bool:
-                        ctx.fail(rule, f"{fi.qualname}:{v.id}", n, f"`{short(n, 60)}`: `{v.id}` is Optional[bool]; `or` replaces an explicit False by the default", fi.module.relpath, n.lineno)
-        ctx.ok(rule, f"{fi.qualname}:tri-state", f"{sorted(opt_bool)} not defaulted with `or`", nontrivial=False, where=fi.loc)
+    from .common_tristate import tri_state_rule
+    tri_state_rule(ctx, rule, ("apischema.deserialization", "apischema.serialization", "apischema.json_schema", "apischema.graphql.schema"))
 
 
 def check(ctx):
